@@ -212,7 +212,13 @@ def norm_item(it):
 
 def norm_mods(tmods):
     """TLC JSON (64-bit values as 16-bit limb tuples, bytes as arrays) -> canonical form"""
-    return {"mods": [{"name": m["name"], "items": [norm_item(i) for i in m["items"]]} for m in tmods]}
+    return {"mods": [{"name": m["name"], "tmp": m.get("tmp", 0), "items": [norm_item(i) for i in m["items"]]} for m in tmods]}
+
+
+def tmp_of(items):
+    """the temporary-name counter a module with these items carries: the largest N of an item named .lc<N>"""
+    ns = [int(it["name"][3:]) for it in items if re.fullmatch(r"\.lc\d+", it.get("name") or "")]
+    return max(ns) if ns else 0
 
 
 def map_ops(M, fn):
@@ -685,7 +691,18 @@ FEATURES = {
     "lref": (lambda M: any(it["k"] == "lref" for _, it in all_items(M)), strip_lref),
     "globals": (lambda M: any(it["k"] == "func" and it["globals"] for _, it in all_items(M)), strip_globals),
     "prop": (lambda M: any(I["op"] in ("prset", "prbeq", "prbne") for _, it in all_items(M) if it["k"] == "func" for I in it["insns"]), strip_prop),
+    "trail_label": (lambda M: any(it["k"] == "func" and it["insns"] and it["insns"][-1]["op"] == "label" for _, it in all_items(M)), lambda M: strip_trail(M)),
 }
+
+
+def strip_trail(M):
+    """a label after the last instruction is moved in front of it"""
+    M = copy.deepcopy(M)
+    for m in M["mods"]:
+        for it in m["items"]:
+            if it["k"] == "func" and len(it["insns"]) >= 2 and it["insns"][-1]["op"] == "label":
+                it["insns"][-2], it["insns"][-1] = it["insns"][-1], it["insns"][-2]
+    return M
 
 
 def strip_features(case, defective, counts=None):
@@ -731,7 +748,7 @@ def _func(name, insns, res=("i64",), args=(), locals_=(("i64", "x"),), va=0, glo
 
 
 def _mod(items, name="m"):
-    return {"mods": [{"name": name, "items": items}]}
+    return {"mods": [{"name": name, "tmp": tmp_of(items), "items": items}]}
 
 
 def _ins(op, *ops):
@@ -757,6 +774,7 @@ def probe_modules():
     P["prop"] = _mod([_func("v", [_ins("prset", _R("x"), _I(3)), _lab(1), _ins("prbeq", {"k": "lab", "n": 1}, _R("x"), _I(4)),
                                   _ins("prbne", {"k": "lab", "n": 1}, _mem("i64", 8, "x"), _I(0)), _ins("ret", _R("x"))])])
     P["globals"] = _mod([_func("v", [_ins("mov", _R("gx"), _I(3)), _ins("ret", _R("gx"))], globals_=(("i64", "gx", "rbx"), ("d", "gd", "xmm5")))])
+    P["trail_label"] = _mod([_func("f", [_ins("bt", {"k": "lab", "n": 1}, _R("x")), _ins("ret", _R("x")), _lab(1)])])
     P["label_order"] = _mod([_func("f", [_ins("jmp", {"k": "lab", "n": 2}), _lab(1), _ins("mov", _R("x"), _I(1)), _lab(2),
                                          _ins("bt", {"k": "lab", "n": 1}, _R("x")), _ins("ret", _R("x"))])])
     P["ld_padding"] = _mod([{"k": "data", "name": "dl", "t": "ld", "nel": 2, "hex": "0000000000000080ff3f" * 2, "via": "data"},
@@ -1000,6 +1018,19 @@ def safe_programs(*a, **kw):
         return [], _NoTLC()
 
 
+def with_temp_items(M):
+    """the program's module as c2m would leave it: a string literal kept in a temporary item .lc<N> and a function with a
+    string operand, for which loading creates one more temporary item (the module's counter must have survived the I/O).
+    Neither is reachable from main."""
+    M = copy.deepcopy(M)
+    m = M["mods"][0]
+    k = max(m.get("tmp", 0), tmp_of(m["items"])) + 1
+    m["items"].insert(0, {"k": "data", "name": ".lc%d" % k, "t": "u8", "nel": 6, "hex": b"hello\0".hex(), "via": "string"})
+    m["items"].append(_func("c10_strf", [_ins("mov", _R("s"), {"k": "str", "b": b"c10\0".hex()}), _ins("ret", _R("s"))], locals_=(("i64", "s"),)))
+    m["tmp"] = k
+    return M
+
+
 def prog_cases(exe, cases):
     """`done` cases of MIRProg.tla -> cases for the replay engine.  The program text comes from progs.render_prog (the
     rendering every other check executes); its abstract module is the projection of that text scanned once, so that the
@@ -1024,6 +1055,7 @@ def prog_cases(exe, cases):
             M = json.loads(o.val)
             obs, nans = progs.spec_obs(c)
             b0, _ = progs.cells_bytes(c["buf0"])
+            M = with_temp_items(M)
             out.append({"M": M, "NF": M, "exec": {"buf0": b0.hex(), "obs": obs, "nans": nans}, "prog": c})
     return out, skipped
 
@@ -1145,6 +1177,7 @@ TEXT_PROBES = {
     "uint_high": ("text:uint_imm_high_bit", "canon", lambda fs: all(f.key() == "text_fixpoint:differs" and b"18446744073709551615" in f.text.encode() for f in fs)),
     "str_nonul": ("text:str_without_nul", "canon", lambda fs: all((f.stage.startswith("proj_") and f.sig.endswith("ops.b")) or f.stage == "text_fixpoint" for f in fs)),
     "undef_mem": ("text:undef_mem_type", "canon", lambda fs: fs[0].stage in ("scan", "pyscan") and "Unknown_type_undef" in fs[0].sig),
+    "trail_label": ("text:trailing_label_rejected", "canon", lambda fs: fs[0].stage in ("scan", "pyscan") and "endfunc_should_have_no_labels" in fs[0].sig),
     "label_order": ("text:label_renumbered", "rev", lambda fs: all(f.key() == "text_fixpoint:labels_renamed" for f in fs)),
 }
 
